@@ -70,6 +70,10 @@ type Scenario struct {
 	Events []Event `json:"events"`
 	// Tail: ticks to keep observing after the schedule (late writes, reaping).
 	Tail int `json:"tail"`
+	// BrokerModel: the harness plays a broker that enforces MQTT keep-alive:
+	// it closes the connection when it has seen no packet for 1.5 x the
+	// keep-alive of the CONNECT, or no CONNECT at all within 10 s.
+	BrokerModel bool `json:"brokermodel"`
 }
 
 // TraceEv is the abstract event as logged (always derived from the bytes
@@ -228,6 +232,7 @@ func runScenario(sc Scenario, emit func(Line)) {
 	}
 	idx := 0
 	var brest []byte
+	bmKa, bmLast, bmClosed := -1, 0, false // broker model: keep-alive (ticks), last packet seen
 	snapshot := func(ev TraceEv) Line {
 		col.mu.Lock()
 		cs := col.c
@@ -249,7 +254,12 @@ func runScenario(sc Scenario, emit func(Line)) {
 			brest = nil
 		}
 		for _, raw := range pk {
-			l.OutB = append(l.OutB, absmap.MqFromPkt(mqref.Parse(raw)))
+			m := absmap.MqFromPkt(mqref.Parse(raw))
+			l.OutB = append(l.OutB, m)
+			if m.T == "CONNECT" {
+				bmKa = m.Ka * 10
+			}
+			bmLast = l.Now
 		}
 		if l.Ended && len(brest) > 0 {
 			l.BJunk = true
@@ -306,6 +316,21 @@ func runScenario(sc Scenario, emit func(Line)) {
 				wasEnded, wasClosed = l.Ended, l.BClosed
 			} else {
 				idx--
+			}
+			if sc.BrokerModel && !bmClosed && !l.Ended {
+				now := nowTicks()
+				if (bmKa < 0 && now >= 100) || (bmKa > 0 && 2*(now-bmLast) >= 3*bmKa) {
+					if quiet > 0 {
+						emit(snapshot(TraceEv{T: "Adv", N: quiet}))
+						quiet = 0
+					}
+					bmClosed = true
+					brokerConn.InjectEOF()
+					synctest.Wait()
+					l2 := snapshot(TraceEv{T: "BEof"})
+					emit(l2)
+					wasEnded, wasClosed = l2.Ended, l2.BClosed
+				}
 			}
 		}
 		if quiet > 0 {
